@@ -10,3 +10,31 @@ package soy
 //@   modifies *
 //@   loop 0
 //@     noterm
+
+// ---------------------------------------------------------------------------
+// C09: bundles are independent. A Bundle owns its globals map (allocated by
+// NewBundle and never replaced): adding globals copies entries into that map
+// and touches neither the argument map nor any other bundle; (Compile and the parse passes are not under frame contracts.)
+//@ func NewBundle
+//@   props C09
+//@   pure
+//@   ensures[owns-a-fresh-globals-map] result != nil && fresh(result) && result.globals != nil && fresh(result.globals)
+//@ func (*Bundle).AddGlobalsMap
+//@   props C09
+//@   nosafety
+//@   modifies b.err, b.globals[_]
+//@   ensures result == b
+//@   loop 0
+//@     noterm
+//@ func (*Bundle).AddTemplateString
+//@   props C09
+//@   nosafety
+//@   modifies b.files, b.files[_]
+//@   ensures result == b
+//@ func (*Bundle).AddParsePass
+//@   props C09
+//@   nosafety
+//@   modifies b.parsepasses, b.parsepasses[_]
+//@ func (*Bundle).SetRecompilationCallback
+//@   props C09
+//@   modifies b.recompilationCallback
